@@ -33,15 +33,20 @@ def scan_reuse():
     body = re.sub(r"/\*.*?\*/", "", m.group(1), flags=re.S)
     body = re.sub(r"//[^\n]*", "", body)
     stmts = [l.strip() for l in body.splitlines() if l.strip()]
-    if len(stmts) != 4 or stmts[0] != "s.recvBuf.releasePreviousReadAndReserve()" or stmts[3] != "}" \
-            or stmts[2] != "s.recvBuf, s.sendBuf = s.sendBuf, s.recvBuf":
-        return None, "Stream.ReleaseReadAndReuse no longer has the shape the model mirrors (release; if cond { swap }): %r" % (stmts,)
-    mm = re.match(r"^if (.*) \{$", stmts[1])
-    if not mm:
-        return None, "Stream.ReleaseReadAndReuse: unknown swap statement %r" % stmts[1]
-    conj = [c.strip() for c in mm.group(1).split("&&")]
+    swap = "s.recvBuf, s.sendBuf = s.sendBuf, s.recvBuf"
+    if not stmts or stmts[0] != "s.recvBuf.releasePreviousReadAndReserve()":
+        return None, "Stream.ReleaseReadAndReuse no longer starts with releasePreviousReadAndReserve(): %r" % (stmts,)
+    # accepted shapes:  if C { swap }   and the equivalent nesting   if C1 { if C2 { swap } }   (C, C1, C2 conjunctions)
+    rest = stmts[1:]
+    conds = []
+    while rest and re.match(r"^if (.*) \{$", rest[0]):
+        conds.append(re.match(r"^if (.*) \{$", rest[0]).group(1))
+        rest = rest[1:]
+    if not conds or rest != [swap] + ["}"] * len(conds):
+        return None, "Stream.ReleaseReadAndReuse no longer has the shape the model mirrors (release; if cond { swap }, ifs possibly nested): %r" % (stmts,)
+    conj = [c.strip() for cond in conds for c in cond.split("&&")]
     if not conj or any(c not in (CONJ_LEN0, CONJ_ONE) for c in conj) or len(set(conj)) != len(conj):
-        return None, "Stream.ReleaseReadAndReuse: swap condition %r is not a conjunction of the two known tests" % mm.group(1)
+        return None, "Stream.ReleaseReadAndReuse: swap condition %r is not a conjunction of the two known tests" % (" && ".join(conds),)
     return (CONJ_LEN0 in conj, CONJ_ONE in conj), None
 
 
@@ -263,6 +268,14 @@ def check(run):
     if err:
         run.add_corr_break("D: " + err)
         cases = []
+    # self-test: a small slice of what the violation search would run (its seed, both levels), on every run
+    st_cases, st_err = run_harness(PROP, "TestVerif_C06", 40, run.seed + 7919, run.tier + "_st", n2=20)
+    if st_err:
+        run.add_corr_break("D: search self-test: " + st_err)
+        st_cases = []
+    for c in st_cases:
+        c["id"] = "st%s" % c["id"]
+    cases = cases + st_cases
     feats, distinct, ops = digest(PROP, run, cases, "C06:")
     if cases:
         correspond(PROP, run, cases, run.tier)
@@ -273,6 +286,7 @@ def check(run):
         "samples": [short_case(c) for c in cases[2:4]],
         "features": feats, "ops": ops, "sizes_relative_to_class_caps": size_distribution(cases),
         "total_ops": sum(len(c["ops"]) for c in cases),
+        "search_selftest_histories": len(st_cases),
         "switch_reuse_swap_needs": {"recvBuf.len == 0": sw[0], "sliceList.size() == 1": sw[1]},
         "level_i_histories": sum(1 for c in cases if c.get("mode") != "c06s"),
         "level_ii_histories": sum(1 for c in cases if c.get("mode") == "c06s"),
